@@ -218,6 +218,10 @@ def tasks(tier):
   ts.append(Task("distributed shampoo block locality", t_ds_blocks))
   # the acceptance gate is per statistic (= per block and axis): a block's stored preconditioner is
   # gate(its previous one, the root of ITS statistic, ITS error), whatever happens to the other blocks of the tensor
+  # the largest-eigenvalue estimate of a PADDED statistic must not see the padding (padding depends on the companions):
+  # the power iteration starts from a vector that is zero on the padding rows and returns its Rayleigh quotient (C01)
+  from contracts import c01
+  ts.append(Task("power_iteration ignores the padding of a statistic", c01.mk_pi_result(True)))
   from contracts import c13
   for n, d, gr in ((3, 1, (3,)), (4, 2, (4,)), (3, 2, (2, 1))):
     ts.append(Task(f"distributed shampoo per-block acceptance[N={n},D={d},statistics per parameter {gr}]", c13.mk_p3(n, d, gr)))
